@@ -13,7 +13,7 @@ DESCRIPTION = {
              "(b) Hypothesis frame sequences from a grammar (1-5 fragments, control frames inside fragmented messages, multi-byte text straddling fragments, "
              "close frames) with at most one violation from the catalogue - including a generated bad-text family: 18 RFC 3629 malformations (truncated 2/3/4-octet sequences, "
              "lone/bad continuation, overlong, surrogates, >U+10FFFF, F5..FF) after a valid prefix of drawn length, cut into fragments at drawn points, at the bad octet -4..0, with empty "
-             "fragments and an empty final fragment, optionally a ping before the final fragment - followed by more valid frames, each delivered under five read schedules (several reads per event-loop turn, one read, "
+             "fragments and an empty final fragment, optionally a ping before the final fragment - followed by more valid frames, each delivered under five read schedules (several reads per event-loop turn, two connections of one process fed the same stream with interleaved reads, one read, "
              "byte-wise, drawn splits, header-boundary splits).  Oracle: an independent receiver model that is given the frame list (not the bytes) yields "
              "the expected events for the well-formed prefix and the verdict; checked: callbacks == events, one pong per ping with equal payload, on violation "
              "exactly one close frame 1002/1007 (failByDrop off) or abort + onClose(False,1006) (on), nothing delivered after the violation, all schedules "
@@ -71,9 +71,10 @@ def plan(tier, seed):
 # endpoint under test
 
 class Rx:
-    def __init__(self, is_server, compression, fail_by_drop, extra_opts=None):
+    def __init__(self, is_server, compression, fail_by_drop, extra_opts=None, d=None):
         from harness import drv, wsutil
-        self.d = drv.get_driver()
+        self.owns_driver = d is None
+        self.d = d or drv.get_driver()
         self.is_server = is_server
         opts = {"failByDrop": fail_by_drop, "openHandshakeTimeout": 0, "closeHandshakeTimeout": 0}
         opts.update(extra_opts or {})
@@ -124,7 +125,8 @@ class Rx:
         closes = [e for e in self.side.log if e[0] == "close"]
         obs = {"events": events, "closes": closes, "dropped": dropped, "frames": frames, "rest": rest, "escaped": list(self.ep.escaped),
                "loop_errors": list(self.d.loop_errors), "state": state_before}
-        self.d.close()
+        if self.owns_driver:
+            self.d.close()
         return obs
 
 
@@ -535,6 +537,30 @@ def run_stream(c, frames, schedule):
     return rx.finish()
 
 
+def run_twins(c, frames):
+    """the same stream into TWO connections of one process, their reads interleaved chunk by chunk (the second one lags by one chunk, and the
+    roles differ when the stream allows it): state must not leak between connections"""
+    from harness import ref6455, drv
+    mk = b"\xa1\xb2\xc3\xd4"
+    data = b"".join(ref6455.encode_frame(f["op"], f["payload"], fin=f["fin"], rsv=f["rsv"], mask=mk if f["masked"] else None, len_form=f["form"],
+                                        declared_len=f["declared"], header_only=f["header_only"]) for f in frames)
+    d = drv.get_driver()
+    try:
+        a = Rx(c["server"], c["comp"], c["fbd"], {"utf8validateIncoming": True}, d=d)
+        b = Rx(c["server"], c["comp"], c["fbd"], {"utf8validateIncoming": True}, d=d)
+        step = 3 if len(data) < 2000 else 1 + len(data) // 400
+        chunks = [data[i:i + step] for i in range(0, len(data), step)]
+        for k in range(len(chunks) + 1):
+            if k < len(chunks):
+                a.feed(chunks[k])
+            if k >= 1:
+                b.feed(chunks[k - 1])
+        oa, ob = a.finish(), b.finish()
+    finally:
+        d.close()
+    return oa, ob
+
+
 def check_sequence(c):
     from harness import ref6455
     frames = build_frames(c)
@@ -560,6 +586,10 @@ def check_sequence(c):
             first = summary
         elif summary != first:
             raise Violation("C02|seq|schedule-dependent-verdict", "schedule %s differs from one-read delivery" % schedule, case)
+    if len(frames) <= 40 and sum(len(f["payload"]) for f in frames) <= 200000:
+        for which, obs in zip("ab", run_twins(c, frames)):
+            case = dict(c, check="seq", schedule="twins")
+            judge(model, frames, obs, "C02|seq|two-connections-interleaved", case, c["fbd"], c["server"])
     return model, frames
 
 
